@@ -3,7 +3,7 @@
 Require Extraction.
 Require Import ExtrOcamlBasic.
 From Coq Require Import ZArith QArith List Bool.
-From Pandora Require Import Lib.Value Model.Dataset Model.Multiscale Gen.MsConst Spec.Multiscale.
+From Pandora Require Import Lib.Value Model.Dataset Model.Machine Model.Multiscale Gen.MsConst Spec.Language Spec.Multiscale.
 Import ListNotations.
 Open Scope Z_scope.
 
@@ -40,13 +40,23 @@ Definition enc_grids (g : grids) : value :=
   | GMap a => VL [VZ 1; enc_arr enc_pair a]
   end.
 
+Definition kind_of_code (z : Z) : option kind :=
+  match z with
+  | 0 => Some MC | 1 => Some Agg | 2 => Some Seg | 3 => Some Opt | 4 => Some Dsp
+  | 5 => Some Flt | 6 => Some Ref | 7 => Some Val | 8 => Some Msc | 9 => Some Cvc
+  | _ => None
+  end.
+Definition dec_pstep (v : value) : step := mkStep (as_z (vnth 0 v)) (kind_of_code (as_z (vnth 1 v))).
+
 (* fid 1: steps -> (num_scales scale_factor)
    fid 2: (n sf k) -> size of level k
    fid 3: (invalid_bits marge sf dmin dmax H W n with_right levels) -> grids of every execution
    fid 4: (sf mask) -> decimated mask
    fid 5: (sf n) -> zoom index map of an axis of length n
    fid 6: (ws marge sf D V ulo uhi h w Gmin Gmax) -> the pixels of the h x w finer level whose observed
-          interval is not prescribed by Spec.Multiscale.finer_spec (the extracted spec checker) *)
+          interval is not prescribed by Spec.Multiscale.finer_spec (the extracted spec checker)
+   fid 7: (n H W sf rdm pre ms post), steps as (id kindcode) -> the executions of Spec.spec_trace with the image
+          size during each of them (Model image_sizes), and the size of the returned map (output_size) *)
 Definition dispatch (fid : Z) (v : value) : value :=
   match fid with
   | 1 => let '(n, sf) := read_multiscale_params ms_default_num_scales ms_default_scale_factor (map dec_step (as_l v)) in VL [VZ n; VZ sf]
@@ -66,6 +76,15 @@ Definition dispatch (fid : Z) (v : value) : value :=
                  (finer_spec_bad (as_z (vnth 0 v)) (as_z (vnth 1 v)) (as_z (vnth 2 v)) (nr Dm) (nc Dm) (px Dm) (px Vm)
                                  (as_q (vnth 5 v)) (as_q (vnth 6 v)) (as_z (vnth 7 v)) (as_z (vnth 8 v))
                                  (fun r c => (px gmin r c, px gmax r c))))
+  | 7 => let n := as_nat (vnth 0 v) in
+         let tr := spec_trace (map dec_pstep (as_l (vnth 5 v))) (dec_pstep (vnth 6 v))
+                              (map dec_pstep (as_l (vnth 7 v))) n (as_b (vnth 4 v)) in
+         let H := as_z (vnth 1 v) in let W := as_z (vnth 2 v) in let sf := as_z (vnth 3 v) in
+         let o := output_size n H W sf tr in
+         VL [VL (map (fun ep => match fst ep with
+                                | Ev id k sc r => VL [VZ id; VZ (kind_code k); VZ sc; of_b r; VZ (fst (snd ep)); VZ (snd (snd ep))]
+                                end) (image_sizes n H W sf tr));
+             VL [VZ (fst o); VZ (snd o)]]
   | _ => VL [VZ (-1)]
   end.
 
